@@ -16,6 +16,7 @@ func propC01(c *Ctx) propInfo {
 	c.bocDedup()
 	c.bocHeaderAgreement()
 	c.bocDescriptors()
+	c.storedHashCount()
 	c.bocDepthLimitsAgree()
 	if f := c.mustFn("E1.P6-forward-refs", "boc", "DeserializeBoc"); f != nil {
 		env := &e1env{cfg: e1cfg{maxDepth: 0, exc: excC07}, ci: &callIndex{}, reach: map[*ssa.Function]bool{}}
@@ -24,7 +25,7 @@ func propC01(c *Ctx) propInfo {
 	c.floor("E8.crc", 3)
 	c.floor("E11.magic", 2)
 	c.floor("E10.dedup", 3)
-	c.floor("E5.boc-header", 5)
+	c.floor("E5.boc-header", 7)
 	c.floor("E7.descriptors", 5)
 	c.floor("E1.P6-forward-refs", 1)
 	return propInfo{
@@ -289,6 +290,48 @@ func (c *Ctx) bocHeaderAgreement() {
 	wgot := strings.Join(wseq, " ")
 	wwant := "MAGIC FLAGS3 U(2) U(3) U(8) U(SIZE*8) U(SIZE*8) U(SIZE*8) U(OFF*8) U(SIZE*8)* U(OFF*8)* DATA*"
 	c.check(wgot == wwant, R, "writer field sequence", w.Pos(), wgot, "serializeBoc writes the header as ["+wgot+"]; the BagOfCells scheme is ["+wwant+"]")
+	// the width of a class of fields is computed from the largest value written with it: SIZE from the
+	// cell count (counts and indices are <= it), OFF from the total size of the cell data
+	widthSrc := func(size ssa.Value) ssa.Value {
+		var src ssa.Value
+		derivesFrom(size, func(v ssa.Value) bool {
+			if cl := callOf(v); cl != nil && callQName(&cl.Call) == "math/bits.Len" {
+				_, src = convChain(cl.Call.Args[0])
+			}
+			return false
+		}, true)
+		return src
+	}
+	firstWritten := func(size ssa.Value) ssa.Value {
+		var first ssa.Value
+		allInstrs(w, func(_ *ssa.BasicBlock, in ssa.Instruction) {
+			if first != nil {
+				return
+			}
+			if cl, ok := in.(*ssa.Call); ok && callQName(&cl.Call) == bocPath+".BitString.WriteUint" {
+				if bo, ok := cl.Call.Args[2].(*ssa.BinOp); ok && bo.Op == token.MUL && stripConv(bo.X) == size {
+					_, first = convChain(cl.Call.Args[1])
+				}
+			}
+		})
+		return first
+	}
+	if refSize != nil && offSize != nil {
+		sSrc, sFirst := widthSrc(refSize), firstWritten(refSize)
+		oSrc, oFirst := widthSrc(offSize), firstWritten(offSize)
+		okS := sSrc != nil && sSrc == sFirst
+		okO := oSrc != nil && oSrc == oFirst
+		desc := func(v ssa.Value) string {
+			if v == nil {
+				return "?"
+			}
+			return shape(v, 3)
+		}
+		c.check(okS, R, "SIZE is the byte width of the cell count", w.Pos(), "bits.Len(cell count) -> SIZE; the cells field holds the same value", "serializeBoc computes the reference/count width from "+desc(sSrc)+" but writes "+desc(sFirst)+" into the cells field with it: at 2^8 or 2^16 cells the count does not fit its own field")
+		c.check(okO, R, "OFF is the byte width of the total cell-data size", w.Pos(), "bits.Len(total size) -> OFF; tot_cells_size holds the same value", "serializeBoc computes the offset width from "+desc(oSrc)+" but writes "+desc(oFirst)+" into tot_cells_size with it")
+	} else {
+		c.bad(R, "SIZE/OFF width sources", w.Pos(), "size/offset width writes not found in serializeBoc")
+	}
 	// reader: calls readNBytesUIntFromArray(width, boc) in order with width role sizeBytes/offsetBytes
 	var sizeV, offV ssa.Value
 	allInstrs(r, func(_ *ssa.BasicBlock, in ssa.Instruction) {
@@ -471,6 +514,53 @@ func (c *Ctx) bocDescriptors() {
 	br := c.fn("boc", "Cell.bocReprWithoutRefs")
 	if br != nil {
 		c.check(has(br, token.REM, 8) && has(br, token.SUB, 7) && has(br, token.SHL, 1), R, "completion tag is 1 << (7 - bits%8) on the last byte", br.Pos(), "padding bit placed right after the data bits", "bocReprWithoutRefs no longer sets the completion tag at bit 7-(bits%8) of the last byte")
+	}
+}
+
+// storedHashCount: the number of (hash, depth) pairs a with-hashes cell carries - which the parser
+// skips - is the number of hashes the hasher computes: one per significant level, i.e. popcount(mask)+1.
+// Both sides must count through HashIndex/popcount; the level (bit length) is a different quantity
+// for masks with a gap.
+func (c *Ctx) storedHashCount() {
+	const R = "E7.descriptors"
+	f := c.mustFn(R, "boc", "levelMask.HashesCount")
+	if f == nil {
+		return
+	}
+	viaPop, viaLevel, plus1 := false, false, false
+	for _, r := range returnsOf(f) {
+		v := retVal(r, 0)
+		if bo, ok := v.(*ssa.BinOp); ok && bo.Op == token.ADD {
+			if k, ok := constInt(bo.Y); ok && k == 1 {
+				plus1 = true
+			}
+		}
+		derivesFrom(v, func(x ssa.Value) bool {
+			if cl := callOf(x); cl != nil {
+				switch callQName(&cl.Call) {
+				case bocPath + ".levelMask.HashIndex", "math/bits.OnesCount32", "math/bits.OnesCount":
+					viaPop = true
+				case bocPath + ".levelMask.Level", "math/bits.LeadingZeros32", "math/bits.Len32", "math/bits.Len":
+					viaLevel = true
+				}
+			}
+			return false
+		}, true)
+	}
+	c.check(viaPop && !viaLevel && plus1, R, "stored-hash count = number of significant levels + 1 (popcount), as the hasher indexes them", f.Pos(), "HashesCount = HashIndex() + 1", "levelMask.HashesCount is no longer popcount(mask)+1 (it uses the level, i.e. the bit length): for a mask with a gap (0b10, 0b101) the parser skips a different number of stored hashes than a serialiser writes, and misreads the cell data")
+	// the parser's skip uses HashesCount * (hashSize + depthSize)
+	if g := c.mustFn(R, "boc", "deserializeCellData"); g != nil {
+		okv := false
+		allInstrs(g, func(_ *ssa.BasicBlock, in ssa.Instruction) {
+			if bo, ok := in.(*ssa.BinOp); ok && bo.Op == token.MUL {
+				if cl := callOf(bo.X); cl != nil && callQName(&cl.Call) == bocPath+".levelMask.HashesCount" {
+					if k, ok := constInt(bo.Y); ok && k == 34 {
+						okv = true
+					}
+				}
+			}
+		})
+		c.check(okv, R, "the parser skips HashesCount x (32+2) bytes of stored hashes and depths", g.Pos(), "mask.HashesCount() * (hashSize + depthSize)", "deserializeCellData no longer skips HashesCount()*(32+2) bytes for a cell with stored hashes")
 	}
 }
 
